@@ -34,4 +34,6 @@ if [ "$1" = "--replay" ]; then
 fi
 TIER=quick
 if [ "$1" = "--tier" ]; then TIER=$2; shift 2; fi
-$scratch/mc check -prop $PROP -tier $TIER -evidence $V/evidence/$PROP.json -replays $V/replays -known $V/known_findings.json -instr-stats $scratch/stats.json "$@"
+OUT=$V
+if [ "$REPO" != "/repo" ]; then OUT=${VERIF_OUT:-$scratch/out}; mkdir -p $OUT/evidence $OUT/replays; fi
+$scratch/mc check -prop $PROP -tier $TIER -evidence $OUT/evidence/$PROP.json -replays $OUT/replays -known $V/known_findings.json -instr-stats $scratch/stats.json "$@"
